@@ -18,7 +18,7 @@
 EXTENDS MimeStream, Json, IOUtils, TLC, SequencesExt
 
 INSTANCE MimeBuild WITH MAXP <- 0, MAXE <- 0, MAXA <- 0, ENCS <- {}, PENCS <- {}, FENCS <- {}, CCS <- <<>>,
-                        PRODS <- <<>>, SRCS <- <<>>, ROTS <- {}, BOUNDARIES <- {}, DELS <- {}, HDRS <- {}, PDESCS <- {}, FDESCS <- {}, FNAMES <- {}, FCIDS <- {}, OPSEQS <- {}, FAULTS <- {}, ROUNDTRIP <- {}, SMIMES <- {}, MWS <- {}, STYLES <- {}, PGPS <- {},
+                        PRODS <- <<>>, SRCS <- <<>>, ROTS <- {}, BOUNDARIES <- {}, DELS <- {}, HDRS <- {}, PDESCS <- {}, FDESCS <- {}, FNAMES <- {}, FCIDS <- {}, OPSEQS <- {}, FAULTS <- {}, ROUNDTRIP <- {}, SMIMES <- {}, MWS <- {}, STYLES <- {}, PGPS <- {}, CHARSETS <- {}, PCHARSETS <- {},
                         prog <- 0, pc <- 0
 
 B == INSTANCE B64Line WITH SIZES <- {}, MAXCALLS <- 0, DEV_OffByOne <- FALSE, used <- 0, lines <- 0, rest <- 0, inrec <- 0,
